@@ -77,6 +77,9 @@ func e2Order(fx *Fixture, work string, rep *Report, depth, dev int) {
 			}
 			params = append(params, paramDecl(o.Name, ty, named))
 			feats = append(feats, "e2var:"+o.Name, "e2type:"+o.Type)
+			if o.Name == "" && o.Type == "string" {
+				feats = append(feats, "e2auto:s")
+			}
 		}
 		decl := "type I interface{ M(" + strings.Join(params, ", ") + ") }"
 		srcAl := map[string]string{}
